@@ -1,0 +1,62 @@
+//go:build verif
+
+package sharder
+
+// Add-only exporters used by the model-based verification harness (/verif, family "sharderfin").
+// Thin wrappers around unexported functions and counters; no behaviour of their own.
+
+import (
+	"context"
+
+	"0chain.net/chaincore/block"
+)
+
+// VerifHealthCheck runs the unexported healthCheck (what HealthCheckWorker runs per round of a cycle).
+func (sc *Chain) VerifHealthCheck(ctx context.Context, rNum int64, scanMode HealthCheckScan) {
+	sc.healthCheck(ctx, rNum, scanMode)
+}
+
+// VerifSetCycleBounds runs the unexported setCycleBounds and returns the (low, high) rounds of the next cycle.
+func (sc *Chain) VerifSetCycleBounds(ctx context.Context, scanMode HealthCheckScan) (int64, int64) {
+	sc.setCycleBounds(ctx, scanMode)
+	cb := sc.BlockSyncStats.cycle[scanMode].bounds
+	return cb.lowRound, cb.highRound
+}
+
+// VerifResetSyncStats gives the chain fresh health-check statistics (as after a process start).
+func (sc *Chain) VerifResetSyncStats() {
+	sc.BlockSyncStats = &SyncStats{}
+	sc.HealthCheckSetup(context.Background(), DeepScan)
+	sc.HealthCheckSetup(context.Background(), ProximityScan)
+}
+
+// VerifHCCounters is the projection of the current cycle's counters of one scan mode.
+type VerifHCCounters struct {
+	Invocations, Success, Failure                                 uint64
+	RoundMissing, RoundRepaired, RoundFailed                      uint64
+	SummaryMissing, SummaryRepaired, SummaryFailed                uint64
+	BlockMissing, BlockRepaired, BlockFailed                      uint64
+	TxnMissing, TxnRepaired, TxnFailed                            uint64
+}
+
+// VerifHealthCounters returns the current cycle's counters.
+func (sc *Chain) VerifHealthCounters(scanMode HealthCheckScan) VerifHCCounters {
+	c := &sc.BlockSyncStats.cycle[scanMode].counters.current
+	return VerifHCCounters{
+		Invocations: c.HealthCheckInvocations, Success: c.HealthCheckSuccess, Failure: c.HealthCheckFailure,
+		RoundMissing: c.roundSummary.Missing, RoundRepaired: c.roundSummary.RepairSuccess, RoundFailed: c.roundSummary.RepairFailure,
+		SummaryMissing: c.blockSummary.Missing, SummaryRepaired: c.blockSummary.RepairSuccess, SummaryFailed: c.blockSummary.RepairFailure,
+		BlockMissing: c.block.Missing, BlockRepaired: c.block.RepairSuccess, BlockFailed: c.block.RepairFailure,
+		TxnMissing: c.txnSummary.Missing, TxnRepaired: c.txnSummary.RepairSuccess, TxnFailed: c.txnSummary.RepairFailure,
+	}
+}
+
+// VerifTxnCountForRound reads the per-round transaction counter of the transaction summary store.
+func (sc *Chain) VerifTxnCountForRound(ctx context.Context, r int64) (int, error) {
+	return sc.getTxnCountForRound(ctx, r)
+}
+
+// VerifStoreBlock calls the unexported storeBlock (repair / magic-block save path).
+func (sc *Chain) VerifStoreBlock(b *block.Block) error {
+	return sc.storeBlock(b)
+}
